@@ -7,29 +7,11 @@
   traversals over the tree of raw node records (`C02Raw`, `C03Raw`, `C04Raw`) are built.  Kernel only.
 -/
 import ArtVerif.Gen.IterOps
-import ArtVerif.Model.RIter
-import ArtVerif.Proofs.GenWalk
+import ArtVerif.Proofs.PushBase
 namespace ArtVerif
 namespace GenIter
-open Gen Gen.IterOps GoNode Raw Swar GenNodeOps GenWalk
+open Gen Gen.IterOps GoNode Raw Swar GenNodeOps PushBase
 variable {C : Type}
-
-def fLane (slots : List (Option C)) (i : Nat) : Option C := (slots[i]?).join
-def gIdx (idx : Bytes) (slots : List (Option C)) (i : Nat) : Option (Option C) :=
-  let p : UInt8 := idx.getD i 0
-  if p != 0 then some ((slots[p.toNat - 1]?).join) else none
-def hSlot (slots : List (Option C)) (i : Nat) : Option (Option C) :=
-  match (slots[i]?).join with
-  | some c => some (some c)
-  | none => none
-
-theorem range_rev_map_succ {β} (f : Nat → β) (m : Nat) :
-    (List.range (m + 1)).reverse.map f = f m :: (List.range m).reverse.map f := by
-  rw [range_reverse_succ]; rfl
-theorem range_rev_filterMap_succ {β} (f : Nat → Option β) (m : Nat) :
-    (List.range (m + 1)).reverse.filterMap f = (match f m with | some b => [b] | none => []) ++ (List.range m).reverse.filterMap f := by
-  rw [range_reverse_succ, List.filterMap_cons]
-  cases f m <;> rfl
 
 theorem all4_desc_lanes (E : Env C) (n : Img C) :
     ∀ (m fuel : Nat) (q : List (Option C)), m ≤ n.children.length → m < fuel →
@@ -397,25 +379,6 @@ theorem filter256_desc_slots (E : Env C) (n : Img C) (hs : n.children.length = 2
 
 
 /-! ### the push steps -/
-
-theorem pushDesc_eq (r : Raw C) : r.pushDesc = match r with
-    | .n4 _ len _ slots => (List.range len).reverse.map (fLane slots)
-    | .n16 _ len _ slots => (List.range len).reverse.map (fLane slots)
-    | .n48 _ _ idx slots => (List.range 256).reverse.filterMap (gIdx idx slots)
-    | .n256 _ _ slots => (List.range 256).reverse.filterMap (hSlot slots) := by
-  cases r <;> rfl
-
-theorem pushAsc_eq (r : Raw C) : r.pushAsc = match r with
-    | .n4 _ len _ slots => (List.range len).map (fLane slots)
-    | .n16 _ len _ slots => (List.range len).map (fLane slots)
-    | .n48 _ _ idx slots => (List.range 256).filterMap (gIdx idx slots)
-    | .n256 _ _ slots => (List.range 256).filterMap (hSlot slots) := by
-  cases r <;> rfl
-
-theorem validIdx {len : Nat} {idx : Bytes} {slots : List (Option C)} (hI : Inv48 len idx slots) :
-    ∀ i, i < 256 → idx.getD i 0 ≠ 0 → (idx.getD i 0).toNat ≤ 48 := by
-  intro i hi hz
-  exact (hI.hvalid _ (getD_mem idx i (by rw [hI.hi]; exact hi)) hz).1
 
 /-- `all()` / `filter()` / (the same switch in) `rangeScan()`: the stack after one inner node has been expanded -/
 theorem all_push_eq (E : Env C) (r : Raw C) (q : List (Option C)) (hinv : r.inv = true) :
